@@ -846,6 +846,66 @@ def _under_ambient_env(oracle):
     return run
 
 
+# ----------------------------------------------------------------------------- arrays sliced before the write
+@st.composite
+def s_sliced(draw):
+    img = draw(s_img(["tiny"] * 4 + ["small"] * 4))
+    ny, nx = img["shape"]
+    oy, ox = draw(st.integers(0, max(0, min(3, ny - 2)))), draw(st.integers(0, max(0, min(3, nx - 2))))
+    # keep at least two rows and columns where the image allows it (a step cannot be read off a single label)
+    ky = draw(st.sampled_from([k for k in (1, 2, 2, 3, 4) if -(-(ny - oy) // k) >= 2] or [1]))
+    kx = draw(st.sampled_from([k for k in (1, 2, 3, 3, 5) if -(-(nx - ox) // k) >= 2] or [1]))
+    return {"img": img, "slice": [oy, ky, ox, kx], "dest": draw(st.sampled_from(["to_cog", "mem"]))}
+
+
+def o_sliced(case, T):
+    """'the same affine transform' for an array that was cropped / decimated with [oy::ky, ox::kx] before the write:
+    the file must place the centre of each remaining pixel where the original grid had it, with pixels kx, ky times as
+    large.  Expectation computed here from the original affine; compared at the raster's corners within 1e-6 px
+    (coordinate labels are float arithmetic)."""
+    from affine import Affine
+    from rasterio.io import MemoryFile
+
+    img = case["img"]
+    oy, ky, ox, kx = case["slice"]
+    xx, syx, A, gbox = build_input(img)
+    sd = xx.odc.spatial_dims
+    if sd is None:
+        T.exclude("xr_spatial_dims_missing(C09)")
+        return
+    xs = xx.isel({sd[0]: slice(oy, None, ky), sd[1]: slice(ox, None, kx)})
+    sub = syx[:, oy::ky, ox::kx]
+    nb, ny, nx = sub.shape
+    if ny < 2 or nx < 2:
+        T.exclude("one_pixel_side_after_slicing(C09)")  # a step cannot be read off a single label
+        return
+    # remaining pixel (i, j) is original pixel (ox + kx*i, oy + ky*j): its *centre* keeps its place, its size grows
+    E = A * Affine.translation(ox + 0.5 - kx / 2, oy + 0.5 - ky / 2) * Affine.scale(kx, ky)
+    kw = common_kwargs({"opts": {}, "img": img})
+    kw["overview_levels"] = []
+    if case["dest"] == "to_cog":
+        data = result_bytes(xs.odc.to_cog(**kw), None)
+    else:
+        data = result_bytes(xs.odc.write_cog(":mem:", **kw), None)
+    with MemoryFile(data) as mem:
+        with mem.open() as f:
+            require((f.count, f.height, f.width) == (nb, ny, nx), "sliced input [%d::%d, %d::%d]: file is %dx%dx%d, array is %dx%dx%d", oy, ky, ox, kx, f.count, f.height, f.width, nb, ny, nx)
+            B = f.transform
+            pix = f.read()
+    px = min(math.hypot(E.a, E.d), math.hypot(E.b, E.e))
+    for (i, j) in ((0, 0), (nx, 0), (0, ny), (nx, ny)):
+        p, q = E * (i, j), B * (i, j)
+        d = math.hypot(p[0] - q[0], p[1] - q[1]) / px
+        require(d <= 1e-6 * max(nx, ny), "array sliced with [%d::%d, %d::%d] before the write: raster corner (%d,%d) is %.4g px from where the original grid's pixel centres put it "
+                "(file transform %r, expected %r)", oy, ky, ox, kx, i, j, d, tuple(B)[:6], tuple(E)[:6])
+    require(same_pixels(pix, sub), "sliced input: pixels differ: %s", first_diff(pix, sub) if pix.dtype == sub.dtype else f"dtype {pix.dtype}")
+    rot = not gbox.axis_aligned
+    T.cls("rotated" if rot else "axis_aligned")
+    T.cls("strided" if (ky, kx) != (1, 1) else "crop_only")
+    if (ky, kx) != (1, 1):
+        T.nontrivial((rot, ky, kx, oy > 0, ox > 0, img["layout"]))
+
+
 def build(chk: Check) -> None:
     chk.sub("roundtrip", o_roundtrip, strategy=s_roundtrip(), n={"quick": 560, "thorough": 12000},
             budget_s={"quick": 70, "thorough": 480}, shrink=False)
@@ -853,3 +913,5 @@ def build(chk: Check) -> None:
             budget_s={"quick": 40, "thorough": 240}, shrink=False)
     chk.sub("existing_destination", o_existing, strategy=s_existing(), n={"quick": 160, "thorough": 5000},
             budget_s={"quick": 40, "thorough": 160}, shrink=False)
+    chk.sub("sliced_input", o_sliced, strategy=s_sliced(), n={"quick": 320, "thorough": 6000},
+            budget_s={"quick": 30, "thorough": 160}, shrink=False)
